@@ -1,14 +1,18 @@
+# The driver's default ASAN_OPTIONS (malloc_context_size=12, 256 MB quarantine) make a rapidcheck worker grow by ~15-30 KB per case
+# (ASan stack depot): 100 000 cases = 1.6 GB.  Detection is unaffected by shorter allocation stacks and a smaller quarantine.
+_ASAN = ("detect_leaks=1:detect_stack_use_after_return=0:allocator_may_return_null=1:handle_abort=0:symbolize=1:"
+         "malloc_context_size=3:quarantine_size_mb=32")
 TARGETS = {
     "c20_alarm_rc": {"src": "C20/alarm.cpp", "variant": "asan", "engine": "rc", "libs": ["alarm", "event", "util", "base"]},
 }
 PROP = {
     "subchecks": [
         # (a) next-instant function through probe subclasses vs. an independent brute-force reference
-        {"target": "c20_alarm_rc", "sub": "next_instant",
+        {"target": "c20_alarm_rc", "sub": "next_instant", "env": {"ASAN_OPTIONS": _ASAN},
          "quick": {"cases": 50000, "max_size": 100, "workers": 8, "case_alarm": 20},
          "thorough": {"cases": 900000, "max_size": 100, "workers": 8, "case_alarm": 20}},
         # (b) alarm life-cycle under a virtual wall clock (H2) and a virtual monotonic clock (H1)
-        {"target": "c20_alarm_rc", "sub": "lifecycle",
+        {"target": "c20_alarm_rc", "sub": "lifecycle", "env": {"ASAN_OPTIONS": _ASAN},
          "quick": {"cases": 20000, "max_size": 100, "workers": 8, "case_alarm": 20},
          "thorough": {"cases": 350000, "max_size": 100, "workers": 8, "case_alarm": 20}},
     ],
